@@ -1301,4 +1301,27 @@ def r17_5_error_of_the_empty_verdict(ctx):
                     f.key('cause-recorded:%s@%d' % (call_name(d.value), i)), f.loc(d),
                     '%s never records the error returned by %s(...) in the list of causes: when that child is the one that rejected, '
                     'its message (the position and the key it names) is missing from the RecognitionError' % (q, call_name(d.value)))
+    # the single-candidate recognisers: where the judgement of a child (an item, a key, a value, an attribute) came back empty, the
+    # rejection that follows carries that child's error - as the error itself or among the causes.  Without it the message ends at
+    # the outer position ("Error in attribute ..." is not a leaf and is never shown) and names neither the node nor the key.
+    for q in ('__recognize_list', '__recognize_dict', '__recognize_user_class'):
+        f = fn(P, S.REC + q)
+        binds = [d for d in f.walk() if isinstance(d, ast.Assign) and isinstance(d.targets[0], ast.Tuple) and len(d.targets[0].elts) == 2
+                 and isinstance(d.value, ast.Call) and call_name(d.value) == 'recognize' and all(isinstance(x, ast.Name) for x in d.targets[0].elts)]
+        for i_, d in enumerate(binds):
+            vv, en = d.targets[0].elts[0].id, d.targets[0].elts[1].id
+            for ret in f.returns():
+                v = verdict(ret)
+                if v is None or v[0] != 'EMPTY':
+                    continue
+                if not any(x is d for x in reaching_defs(f, ret, vv)) or f.card(ret, vv) != {0}:
+                    continue
+                names = {x.id for x in ast.walk(v[3]) if isinstance(x, ast.Name)}
+                for x in list(names):
+                    names |= {y.id for s_ in assigned_from(f, x) for y in ast.walk(s_) if isinstance(y, ast.Name)}
+                r.check(en in names, '%s: the rejection after an empty verdict of a child carries the child\'s error %s' % (q, en),
+                        f.key('child-error-dropped:%s@%d' % (vv, i_)), f.loc(ret),
+                        '%s rejects because the judgement of a child came back empty (len(%s) == 0) but returns an error that does not contain '
+                        'the child\'s error %s: the message stops at the outer node - the place and the key the child named are lost'
+                        % (q, vv, en))
     r.done()
